@@ -14,6 +14,9 @@ pub type RunOnce = fn(Vec<String>) -> Result<(), String>;
 
 /// invocations found spinning on the CPU outside any scheduling point (their OS threads are leaked)
 static SPINS: std::sync::atomic::AtomicU32 = std::sync::atomic::AtomicU32::new(0);
+pub fn add_spins(n: u32) {
+    SPINS.fetch_add(n, std::sync::atomic::Ordering::SeqCst);
+}
 pub fn spin_count() -> u32 {
     SPINS.load(std::sync::atomic::Ordering::SeqCst)
 }
@@ -535,9 +538,12 @@ pub fn run_invocation(scratch: &mut Scratch, tree: &Tree, inv: &Inv, out: &Path)
 
     let tid_cell = std::sync::Arc::new(std::sync::atomic::AtomicI32::new(0));
     let tid_cell2 = tid_cell.clone();
+    // dropped when the invocation thread ends (also by unwinding): wakes the watchdog below
+    let (done_tx, done_rx) = std::sync::mpsc::channel::<()>();
     let handle = std::thread::Builder::new()
         .stack_size(1 << 20)
         .spawn(move || {
+            let _done = done_tx;
             tid_cell2.store(unsafe { libc::gettid() }, std::sync::atomic::Ordering::SeqCst);
             crate::hashseed::set_thread_hash_seed(inv2.hash_seed | 1);
             crate::hashseed::set_thread_wall_clock(if inv2.wall_clock == 0 { 1_700_000_000 } else { inv2.wall_clock });
@@ -658,10 +664,8 @@ pub fn run_invocation(scratch: &mut Scratch, tree: &Tree, inv: &Inv, out: &Path)
     // a scheduling point, a std Condvar) would block this OS thread for real. That is a limit of the
     // simulator, not a verdict: report it as a harness error instead of hanging the check.
     let t0 = std::time::Instant::now();
-    let mut polls = 0u64;
-    while !handle.is_finished() {
-        polls += 1;
-        if polls % 4000 == 0 && t0.elapsed() > std::time::Duration::from_secs(3) {
+    while let Err(std::sync::mpsc::RecvTimeoutError::Timeout) = done_rx.recv_timeout(std::time::Duration::from_millis(250)) {
+        if t0.elapsed() > std::time::Duration::from_secs(3) {
             // an invocation normally takes about a millisecond. One that has burnt many CPU seconds
             // without reaching a scheduling point is spinning in the code under test (a busy loop the
             // scheduler cannot see); its OS thread cannot be stopped and is leaked.
@@ -698,7 +702,6 @@ pub fn run_invocation(scratch: &mut Scratch, tree: &Tree, inv: &Inv, out: &Path)
             println!("HARNESS-ERROR an invocation blocked outside the simulator for 120 s (unsimulated blocking primitive?): {:?} {:?}", inv.lang, inv.mode);
             std::process::exit(2);
         }
-        std::thread::sleep(std::time::Duration::from_micros(50));
     }
     let mut o = handle.join().expect("invocation thread must not die");
     if let Some((cwd_file, _home)) = &bare {
